@@ -409,6 +409,12 @@ def c15_oracle(case):
     """The property on one real c15 case: list of (block index, rule, text). Empty = REST and gRPC agree."""
     fails = []
     rr, rg = Renamer(), Renamer()
+    # the premise of C15 ("no REST session idles out"), read off the history itself: last activity per cookie
+    try:
+        tmo = int(case["cfg"][5])
+    except Exception:  # noqa
+        tmo = None
+    now, last = 0, {}
     if case.get("panic"):
         try:
             ptxt = bytes.fromhex(case["panic"]).decode("utf-8", "replace")
@@ -419,6 +425,18 @@ def c15_oracle(case):
         e, g = blk["e"], blk["g"]
         st = [o[1] for o in blk["o"] if o and o[0] == "st"]
         ends = [o[1] for o in blk["o"] if o and o[0] == "end"]
+        if tmo is not None:
+            if e[0] == "create":
+                last[e[1]] = now
+            elif e[0] == "delete":
+                last.pop(e[1], None)
+            elif e[0] == "req" and e[1] in last:
+                last[e[1]] = now
+            elif e[0] == "adv":
+                now += max(0, int(e[1]))
+                if any(now >= t + tmo for t in last.values()):
+                    case["premise_broken_at"] = bi   # a session was left idle for a full timeout: outside C15 from here on
+                    break
         if g is None:
             if e[0] == "adv" and ends:
                 fails.append((bi, "rest-session-ended-while-connection-lives", "ConnEnd for %d REST session(s) during an advance although every gap is below the timeout" % len(ends)))
